@@ -1012,3 +1012,19 @@ package proxy
 //@   loop 9 invariant forall j int :: { receiversToClose[j] } 0 <= j && j < len(receiversToClose) ==> !(receiversToClose[j] in desiredReceivers)
 //@   loop 10 invariant forall j int :: { sendersToClose[j] } 0 <= j && j < len(sendersToClose) ==> !(sendersToClose[j] in desiredSenders)
 //@   loop 11 invariant forall j int :: { sendersToClose[j] } 0 <= j && j < len(sendersToClose) ==> !(sendersToClose[j] in desiredSenders)
+
+// C08 (no worker left running): the intra-proxy workers look at their latch in every loop iteration that can block or
+// sleep (defect D17: the receiver's wait for a local target channel slept without looking at it).
+//@ extern (adminservice.AdminService_StreamWorkflowReplicationMessagesClient).Recv@(*intraProxyStreamReceiver).recvReplicationMessages(c)
+//@   trusted A-wire: repeated fields hold no nil elements
+//@   ensures result0 != nil && msgsOf(result0) != nil ==> forall k int :: { msgsOf(result0).ReplicationTasks[k] } 0 <= k && k < len(msgsOf(result0).ReplicationTasks) ==> msgsOf(result0).ReplicationTasks[k] != nil
+//@   assigns nothing
+//@ extern (ShardManager).GetRemoteSendChan@(*intraProxyStreamReceiver).recvReplicationMessages
+//@   assigns nothing
+//@ contract (*intraProxyStreamReceiver).recvReplicationMessages
+//@   props C08
+//@   wakeup shutdown.Channel()
+//@   requires r.shutdown != nil && r.streamClient != nil && !(r.sourceShardID.ClusterID == 0 && r.sourceShardID.ShardID == 0)
+//@   loop 1 invariant backoff >= 0 && backoff <= 2000000000
+//@   loop 2 invariant fresh(ids)
+//@   loop 3 invariant backoff >= 0 && backoff <= 2000000000
